@@ -116,15 +116,15 @@ theorem inv3_step {n dt : Int} {s0 : SimS} {pref : List Nat} {pi : Nat} {pool : 
     {epref : List (Nat × Strategy)} {fin : List TaskId} (s s' : SimS) (cur : Nat × Strategy) (m0 : Int)
     (g1 g2 : GraphS) (x1 x2 : TaskS) (fin' : List TaskId)
     (h : Inv3 n dt s0 pref pi pool wpref epref fin s) (hm0 : m0 = n)
-    (hg1 : s.graphs[(ungid cur.1).g]? = some g1) (hx1 : g1.task? (ungid cur.1).t = some x1)
     (hrun : ¬ (x1.state != .running) = true)
-    (hg2 : s.graphs[(ungid cur.1).g]? = some g2) (hx2 : g2.task? (ungid cur.1).t = some x2)
+    (hx1 : g1.task? (ungid cur.1).t = some x1) (hg1 : s.graphs[(ungid cur.1).g]? = some g1)
     (hfin' : fin' = fin ∨ (fin' = fin ++ [ungid cur.1] ∧ (x1.doStep m0 dt).2 = true))
     (hp : s'.pools = s.pools)
     (hgr : s'.graphs = s.graphs.setIfInBounds (ungid cur.1).g (g2.setTask (ungid cur.1).t (x2.call (.step m0 dt)).1))
     (hn : s'.now = s.now) (hl : s'.log = s.log) (hq : s'.queue = s.queue) (hfu : s'.future = s.future)
     (hns : s'.nextSched = s.nextSched) (hid : s'.nextEid = s.nextEid) (ha : s'.allGraphs = s.allGraphs)
-    (hj : s'.jobs = s.jobs) (hlr : s'.loaderReleased = s.loaderReleased) :
+    (hj : s'.jobs = s.jobs) (hlr : s'.loaderReleased = s.loaderReleased)
+    (hx2 : g2.task? (ungid cur.1).t = some x2) (hg2 : s.graphs[(ungid cur.1).g]? = some g2) :
     Inv3 n dt s0 pref pi pool wpref (epref ++ [cur]) fin' s' := by
   have hgg : g2 = g1 := Option.some.inj (hg2.symm.trans hg1)
   subst hgg
